@@ -23,7 +23,7 @@ const char *vf_rule =
 
 using namespace vf;
 
-enum { K_HDR, K_FILL, K_ROW, K_X26, K_X27, K_X28, K_M29, K_830 };
+enum { K_HDR, K_FILL, K_ROW, K_X26, K_X27, K_X28, K_M29, K_830, K_BTT };
 enum { B_NONE = 0, B_H8, B_H24, B_H24b, B_H24c, B_PAR };
 struct Pkt {
 	uint8_t b[42]; uint8_t cls[42];
@@ -31,7 +31,7 @@ struct Pkt {
 	bool exempt;		// magazine or service level packet: processed whatever happens to the pages in progress
 	int span_end;		// headers: index of the packet that terminates this page
 };
-struct PageDef { unsigned mag, page, sub, national; bool c5, c6; uint8_t header[32]; bool have[25]; uint8_t row[25][40]; };
+struct PageDef { unsigned mag, page, sub, national; bool c5, c6; uint8_t header[32]; bool have[25]; uint8_t row[25][40]; bool btt; };	// btt: the TOP basic table page 1F0, rows 1-20 hold one Hamming 8/4 coded page type per page 100-899
 
 struct EvRec { std::string s; bool page_event; };
 static std::vector<EvRec> *g_log;
@@ -124,7 +124,13 @@ static void run_tx(const std::vector<Pkt> &tx, const std::vector<char> *drop, in
 			else o += "<fetch failed>";
 			o += "|L|";
 		}
+		if (o == "<fetch failed>|L|<fetch failed>|L|") continue;	// not a displayable page (TOP tables): what it says shows in the page classification below
 		out.pages.push_back({ (unsigned) pgno[i] << 16 | (unsigned) subno[i], o });
+	}
+	{	// page classification of all pages 100-899 (TOP basic table, subtitle / newsflash flags): compared like a page
+		std::string m;
+		for (int mag = 1; mag <= 8; ++mag) for (int tens = 0; tens < 10; ++tens) for (int units = 0; units < 10; ++units) { vbi_subno sb = 0; char *lang = nullptr; m += (char) vbi_classify_page(dec, mag << 8 | tens << 4 | units, &sb, &lang); }
+		out.pages.push_back({ 0xFFFFFFFFu, m });
 	}
 	std::sort(out.pages.begin(), out.pages.end());
 	vbi_decoder_delete(dec);
@@ -177,13 +183,14 @@ static Pkt mk(const tx::Packet &q, int kind, int mag, int pi, int cyc, int row) 
 	switch (kind) {
 	case K_HDR: case K_FILL: for (int i = 2; i < 10; ++i) p.cls[i] = B_H8; for (int i = 10; i < 42; ++i) p.cls[i] = B_PAR; break;
 	case K_ROW: for (int i = 2; i < 42; ++i) p.cls[i] = B_PAR; break;
+	case K_BTT: for (int i = 2; i < 42; ++i) p.cls[i] = B_H8; break;
 	case K_X26: case K_X28: case K_M29: p.cls[2] = B_H8; for (int i = 0; i < 13; ++i) mark(p, 3 + 3 * i, B_H24); break;
 	default: break;
 	}
 	return p;
 }
 
-static const char *kind_name(int k) { static const char *n[] = {"header", "filler-header", "row", "X/26", "X/27", "X/28", "M/29", "8/30"}; return n[k]; }
+static const char *kind_name(int k) { static const char *n[] = {"header", "filler-header", "row", "X/26", "X/27", "X/28", "M/29", "8/30", "TOP-BTT-row"}; return n[k]; }
 
 int vf_run_case(Src &s, Report &r) {
 	bool thorough = getenv("VF_THOROUGH") != nullptr;
@@ -211,6 +218,15 @@ int vf_run_case(Src &s, Report &r) {
 			for (int y = 1; y <= 24; ++y) { p.have[y] = s.chance(1, 4); if (p.have[y]) { ttxgen::gen_row(s, p.row[y], richness, &dummy); } }
 			pages.push_back(p);
 		}
+	}
+	// one base in four carries the TOP basic table page 1F0 (derived from a template byte, so that the choice sequence stays as it was)
+	bool with_btt = (hdr_tmpl[2] & 3) == 0;
+	if (with_btt) {
+		PageDef p; memset(&p, 0, sizeof p); p.btt = true; p.mag = 1; p.page = 0xF0; p.sub = 0; memcpy(p.header, hdr_tmpl, 32); for (int i = 24; i < 32; ++i) p.header[i] = '0';
+		uint32_t x = 0x9E3779B9u ^ (hdr_tmpl[3] << 16 | hdr_tmpl[4] << 8 | hdr_tmpl[5]);
+		auto nxt = [&]() { x ^= x << 13; x ^= x >> 17; x ^= x << 5; return x >> 8; };
+		for (int y = 1; y <= 20; ++y) { p.have[y] = nxt() % 3 != 0; for (int i = 0; i < 40; ++i) { unsigned c = nxt() % 16; p.row[y][i] = (uint8_t) (c < 13 ? c : 0); } }
+		pages.push_back(p);
 	}
 	unsigned ncyc = 2 + s.pick(2);
 	std::vector<Pkt> txv;
@@ -241,6 +257,17 @@ int vf_run_case(Src &s, Report &r) {
 		std::vector<std::vector<Pkt>> plist(pages.size());
 		for (size_t pi = 0; pi < pages.size(); ++pi) {
 			PageDef &p = pages[pi];
+			if (p.btt) {	// no choices are consumed for this page
+				tx::HeaderFlags f; f.c4_erase = cyc == 0; f.c11_serial = serial;
+				plist[pi].push_back(mk(tx::header(p.mag, p.page, p.sub, f, p.header), K_HDR, (int) p.mag, (int) pi, (int) cyc, 0));
+				sent_keys.insert((((p.mag << 8) | p.page) << 16));
+				for (int y = 1; y <= 20; ++y) if (p.have[y] && (cyc == 0 || (y + cyc) % 3)) {
+					tx::Packet q; enc::address(q.b, p.mag, (unsigned) y); for (int i = 0; i < 40; ++i) q.b[2 + i] = enc::ham8(p.row[y][i]);
+					plist[pi].push_back(mk(q, K_BTT, (int) p.mag, (int) pi, (int) cyc, y));
+				}
+				has_enh = true;
+				continue;
+			}
 			tx::HeaderFlags f; f.c4_erase = cyc == 0 ? s.chance(1, 2) : s.chance(1, 4); f.c5_newsflash = p.c5; f.c6_subtitle = p.c6; f.c11_serial = serial; f.national = p.national;
 			if (cyc > 0 && !f.c4_erase) has_noerase = true;
 			plist[pi].push_back(mk(tx::header(p.mag, p.page, p.sub, f, p.header), K_HDR, (int) p.mag, (int) pi, (int) cyc, 0));
@@ -331,7 +358,7 @@ int vf_run_case(Src &s, Report &r) {
 	}
 	g_full_page_event = true;
 	Snap ref; run_tx(txv, nullptr, -1, nullptr, ref);
-	for (auto &kv : ref.pages) if (!sent_keys.count(kv.first)) return r.fail("C03:faultfree-foreign-page", "fault-free run cached %x.%x which was not transmitted", kv.first >> 16, kv.first & 0xFFFF);
+	for (auto &kv : ref.pages) if (kv.first != 0xFFFFFFFFu && !sent_keys.count(kv.first)) return r.fail("C03:faultfree-foreign-page", "fault-free run cached %x.%x which was not transmitted", kv.first >> 16, kv.first & 0xFFFF);
 
 	uint64_t budget = thorough ? 20000 : 3000;	// fault runs per base; classes below are enumerated completely unless the base is larger than this
 	uint64_t runs = 0;
@@ -364,6 +391,7 @@ int vf_run_case(Src &s, Report &r) {
 		dropped_ref.clear();
 		for (int k = 0; k < (hdr ? 2 : 3); ++k) {
 			if (txv[i].cls[k] != B_H8) continue;
+			if (k == 2 && txv[i].kind == K_BTT) continue;	// a data byte there (class 2e)
 			if (hdr && k >= 0) { /* address bytes of a header: same rule, the header is lost */ }
 			for (int b1 = 0; b1 < 8; ++b1) for (int b2 = b1 + 1; b2 < 8; ++b2) {
 				if (runs > budget * 8 / 10 && ((b1 * 8 + b2 + i) % 7)) continue;
@@ -446,6 +474,30 @@ int vf_run_case(Src &s, Report &r) {
 		}
 	}
 
+	// ---------- class 2e: uncorrectable byte in a row of the TOP basic table: at most the page type of that one page is affected ----------
+	for (int i = 0; i < n; ++i) {
+		if (txv[i].kind != K_BTT) continue;
+		bool haveW = false; Snap without;
+		for (unsigned rep = 0; rep < 6; ++rep) {
+			int j = (int) s.pick(40); unsigned b1 = s.pick(8), b2 = s.pick(7); if (b2 >= b1) ++b2;
+			memcpy(fb, txv[i].b, 42); fb[2 + j] ^= (uint8_t) ((1u << b1) | (1u << b2));
+			run_tx(txv, nullptr, i, fb, got); ++runs;
+			r.cls("faults:double-bit-TOP-basic-table-byte");
+			if (same_pages(got, ref)) continue;
+			if (!haveW) { std::fill(drop.begin(), drop.end(), 0); drop[i] = 1; run_tx(txv, &drop, -1, nullptr, without); haveW = true; }
+			if (same_pages(got, without)) continue;
+			if (got.pages.size() != ref.pages.size()) return r.fail("C03:uncorrectable-basic-table-byte-changes-pages", "two bit errors in byte %d: %s: %s", 2 + j, describe(i, fb).c_str(), first_page_diff(got, ref).c_str());
+			size_t damaged = (size_t) (txv[i].row - 1) * 40 + (size_t) j;	// rows 1-20 x 40 bytes = pages 100-899 in order
+			for (size_t q = 0; q < got.pages.size(); ++q) {
+				if (got.pages[q].first != ref.pages[q].first) return r.fail("C03:uncorrectable-basic-table-byte-changes-pages", "two bit errors in byte %d: %s: %s", 2 + j, describe(i, fb).c_str(), first_page_diff(got, ref).c_str());
+				if (got.pages[q].first != 0xFFFFFFFFu) { if (got.pages[q].second != ref.pages[q].second && got.pages[q].second != without.pages[q].second) return r.fail("C03:uncorrectable-basic-table-byte-changes-pages", "two bit errors in byte %d: %s: %s", 2 + j, describe(i, fb).c_str(), first_page_diff(got, ref).c_str()); continue; }
+				const std::string &g = got.pages[q].second, &a = ref.pages[q].second, &w = without.pages[q].second;
+				for (size_t pgi = 0; pgi < g.size() && pgi < a.size() && pgi < w.size(); ++pgi) if (pgi != damaged && g[pgi] != a[pgi] && g[pgi] != w[pgi])
+					return r.fail("C03:uncorrectable-basic-table-byte-moves-page-types", "two bit errors in byte %d (the entry of page %zu): %s: page %zu is classified as type %d; fault-free %d, without this packet %d", 2 + j, 100 + damaged, describe(i, fb).c_str(), 100 + pgi, (int) (unsigned char) g[pgi], (int) (unsigned char) a[pgi], (int) (unsigned char) w[pgi]);
+			}
+		}
+	}
+
 	// ---------- class 2c: uncorrectable Hamming 8/4 byte inside a page link (X/27/0-3 FLOF links, 8/30 initial page): the link is ignored ----------
 	// Accepted: any outcome in which no page is lost or gained and every navigation link of every page points where it points in the
 	// fault-free run, in the run without this packet, or nowhere. A link to a page number that no fault-free run shows is data made up
@@ -492,7 +544,9 @@ int vf_run_case(Src &s, Report &r) {
 			unsigned mask = id % nsub; bool as_filler = id >= nsub;
 			std::fill(drop.begin(), drop.end(), 0);
 			for (int j = i; j < txv[i].span_end; ++j) if (!txv[j].exempt && txv[j].mag == txv[i].mag) drop[j] = 1;
-			for (size_t o = 0; o < open.size(); ++o) if (mask & (1u << o)) { int h = open[o]; for (int j = h; j < txv[h].span_end; ++j) if (!txv[j].exempt && txv[j].mag == txv[h].mag) drop[j] = 1; }
+			for (size_t o = 0; o < open.size(); ++o) if (mask & (1u << o)) { int h = open[o];
+				bool immediate = txv[h].pi >= 0 && pages[(size_t) txv[h].pi].btt;	// the rows of the TOP basic table take effect when they arrive: abandoning that page only stops the rows that follow
+				for (int j = immediate ? i : h; j < txv[h].span_end; ++j) if (!txv[j].exempt && txv[j].mag == txv[h].mag) drop[j] = 1; }
 			if (as_filler) drop[i] = 0;
 			run_tx(txv, &drop, as_filler ? i : -1, filler, cands[id]); have[id] = true; return cands[id];
 		};
@@ -507,7 +561,7 @@ int vf_run_case(Src &s, Report &r) {
 			for (unsigned m = 0; m < ncand; ++m) if (m != nsub && m != nsub - 1 && m != 2 * nsub - 1 && m != 0) order.push_back(m);
 			for (unsigned m : order) if (same_pages(got, candidate(m))) { ok = true; break; }
 			if (!ok) {
-				for (auto &kv : got.pages) if (!sent_keys.count(kv.first)) return r.fail("C03:uncorrectable-header-stores-foreign-page", "two bit errors in header byte %d: %s: page %x.%x was never transmitted", k, describe(i, fb).c_str(), kv.first >> 16, kv.first & 0xFFFF);
+				for (auto &kv : got.pages) if (kv.first != 0xFFFFFFFFu && !sent_keys.count(kv.first)) return r.fail("C03:uncorrectable-header-stores-foreign-page", "two bit errors in header byte %d: %s: page %x.%x was never transmitted", k, describe(i, fb).c_str(), kv.first >> 16, kv.first & 0xFFFF);
 				return r.fail("C03:uncorrectable-header-damages-pages", "two bit errors in header byte %d: %s: the cached pages equal no run in which this header's page and any subset of the %zu pages in progress are abandoned; against 'all abandoned': %s; against 'header still terminates, none abandoned': %s",
 					k, describe(i, fb).c_str(), open.size(), first_page_diff(got, candidate(nsub - 1)).c_str(), first_page_diff(got, candidate(nsub)).c_str());
 			}
@@ -610,7 +664,7 @@ int vf_run_case(Src &s, Report &r) {
 		}
 		run_tx(txv, &drop, -1, nullptr, got, &multi); ++runs;
 		r.cls("faults:burst-up-to-2-bits-per-protected-byte");
-		for (auto &kv : got.pages) if (!sent_keys.count(kv.first)) return r.fail("C03:burst-stores-foreign-page", "burst %u (up to two bit errors per protected byte in %zu packets, dropped packets): page %x.%x is cached but was never transmitted", bi, multi.size(), kv.first >> 16, kv.first & 0xFFFF);
+		for (auto &kv : got.pages) if (kv.first != 0xFFFFFFFFu && !sent_keys.count(kv.first)) return r.fail("C03:burst-stores-foreign-page", "burst %u (up to two bit errors per protected byte in %zu packets, dropped packets): page %x.%x is cached but was never transmitted", bi, multi.size(), kv.first >> 16, kv.first & 0xFFFF);
 		for (auto &e : got.log) if (e.page_event) { unsigned pg = 0, sb = 0; sscanf(e.s.c_str(), "%*d,%u,%u", &pg, &sb); if (!sent_keys.count((pg << 16) | sb)) return r.fail("C03:burst-foreign-page-event", "burst %u: page event for %x.%x which was never transmitted", bi, pg, sb); }
 	}
 
